@@ -18,6 +18,7 @@
 //   reported so that the caller can leave those texts unasserted).
 // Canonical spelling: entity "@{name|t1,t2}" with tags in grammeme order; collaboration "@{offset|nominal}" (decimal).
 #pragma once
+#include <algorithm>
 #include <cstdint>
 #include <map>
 #include <set>
